@@ -210,8 +210,39 @@ func (c *cluster) judge() {
 	// other members learn it on their periodic dc-location check.
 	const mechB = "stale-width-on-non-pd-leader-member"
 	const mechC = "new-dc-allocator-starts-below-global"
+	// the member that was PD leader when a suffix value was stored (it assigned it): taken from the
+	// placement recorded by the last request that began before the watch delivered the key
+	callOrder := make([]int, 0, len(ops))
+	for i := range ops {
+		callOrder = append(callOrder, i)
+	}
+	sort.Slice(callOrder, func(a, b int) bool { return ops[callOrder[a]].Call < ops[callOrder[b]].Call })
+	assigner := map[int32]int{}
+	for _, e := range sev {
+		v, ok := atoi32(e.Value)
+		if !ok || e.Type != "PUT" {
+			continue
+		}
+		k := sort.Search(len(callOrder), func(i int) bool { return ops[callOrder[i]].Call >= e.Tick })
+		if _, seen := assigner[v]; !seen {
+			assigner[v] = -2
+			if k > 0 {
+				assigner[v] = ops[callOrder[k-1]].PDLeader
+			}
+		}
+	}
 	staleB := func(g *granted) bool {
-		return g.o.DC != globalDC && g.o.Target != g.o.PDLeader && int64(maxStoredBefore(g.o.Call)) >= int64(1)<<g.bits
+		need := maxStoredBefore(g.o.Call)
+		if int64(need) < int64(1)<<g.bits {
+			return false
+		}
+		if g.o.DC != globalDC && g.o.Target != g.o.PDLeader {
+			return true
+		}
+		// served by the current PD leader (a global response, or a local allocator it leads): stale
+		// only if another member was PD leader when the larger suffix was assigned
+		a, ok := assigner[need]
+		return ok && a >= 0 && g.o.Target != a
 	}
 
 	// ---------- granted responses, field rules ----------
@@ -421,7 +452,7 @@ func (c *cluster) judge() {
 						what: fmt.Sprintf("a global timestamp (min %d) is not greater than a %s timestamp (max %d) whose request completed before the global request began", g.lo, f.o.DC, f.hi)}
 					if widthCase {
 						fd.key += ":width-mismatch"
-						if staleB(f) {
+						if staleB(f) || staleB(g) {
 							fd.mech, fd.key = true, "global-not-above-completed-local:"+mechB
 						}
 					} else if f.o.Skew && g.o.Skew {
